@@ -38,7 +38,7 @@ FLOORS = {'quick': {'evaluations': 15000, 'distinct_nontrivial': 3000},
 ASSUMPTIONS = ['not representable by the formats themselves, hence not generated: top-level str keys that are integer '
                'literals (nested ones are kept as strings and are generated), strings that int()/float() accept, bool/None table cells, strings with line '
                'breaks, params strings with quotes/backslashes, NaN/inf in params, int keys inside nested '
-               'dictionaries, tuples']
+               'dictionaries, tuples in JSON (a parameter file keeps tuples: generated there)']
 NSHARDS = 16
 DTYPES = ['bool', 'int8', 'uint8', 'int16', 'uint16', 'int32', 'uint32', 'int64', 'uint64', 'float16',
           'float32', 'float64', '>f4', '>i2', '>u8']
@@ -46,6 +46,8 @@ LAYOUTS = ['C', 'F', 'strided', 'empty']
 WORDS = ['good', 'mua', 'noise', 'a b', ' lead', 'trail ', 'x,y', 'tab\there', 'q"uote', "it's", 'é✓', '日本',
          '-', 'n/a', 'None', 'True', 'e', '0x', '1e', '--1', 'in f', '',
          # characters that str.splitlines() treats as line breaks but the formats do not; beyond the BMP
+         # strings that look like fragments of the formats themselves
+         'tetrode [ 1, 2,  3 ] is noisy', 'shank [ 0 ]', '{ "a": 1 }', 'x = 3  # note', 'cluster_id',
          'page1\x0cpage2', 'a\u2028b', 'x\x85y', 'v\x0bt', 'g\x1cs\x1dr\x1e', 'p\u2029q', 'mouse\U0001F42D', '\U00020000x']
 
 
@@ -237,6 +239,9 @@ def _tsv(case, ctx, d):
         rows.append(row)
     if rng.random() < 0.3:
         rows.insert(int(rng.integers(0, len(rows) + 1)), {})
+    if rng.random() < 0.15:
+        # a row whose cells repeat the column names (as a pasted header line would)
+        rows.insert(int(rng.integers(0, len(rows) + 1)), {f: f for f in fields})
     # a header that contains the other delimiter would defeat delimiter sniffing by design: our field
     # alphabet has neither tabs nor commas
     first = fields[int(rng.integers(0, nf))] if rng.random() < 0.7 else None
@@ -336,6 +341,8 @@ def _params(case, ctx, d):
             return bool(rng.integers(0, 2))
         if k == 4:
             return None
+        if k == 5 and rng.random() < 0.5:
+            return tuple(val(1) for _ in range(int(rng.integers(0, 3))))        # tuples survive a parameter file: (), (x,), (x, y)
         return [val(1) for _ in range(int(rng.integers(0, 4)))]
     keys = ['dat_path', 'n_channels_dat', 'dtype', 'offset', 'sample_rate', 'hp_filtered', 'extra_1']
     data = {k: val() for k in keys if rng.random() < 0.8}
